@@ -22,6 +22,13 @@ Shape (DESIGN.md §4): the blocking client is a pure function threading the whol
   count makes `write` see exactly the 7-byte chunks of the payload (`chunks7`), because `write`
   looks at `b[0:7]` only and returns `len(b[0:7])` or `None`.  `close()` always runs when the
   `with` block is left, also after an exception.
+* C07 (disturbed responses): `Env.dist = some (at, kind)` alters the server's `at`-th response frame
+  on its way into the client's queue (`Sdo/Disturb.lean`'s kinds: lost, replaced, bit 4 flipped,
+  wrong command specifier, wrong multiplexer, duplicated, duplicated later, late, stale frame in
+  between); frames held back (`pending`) arrive when the client sends its next frame or when time
+  passes between two transfers (`between`).  `Env.srvTimeout = false` means the server's own
+  time-out never fires before the client's.  With the defaults (`none`, `true`) every definition
+  is literally the C12 one.  The exception class of the last `raise` travels in `Sys.raised`.
 Not modelled: responses shorter than 8 bytes (`struct.error`), `pos` going negative in
 `_retransmit` after the last short segment (the next statement raises; `pos` is never read again).
 -/
@@ -29,11 +36,14 @@ import CanopenModel.Bytes
 import CanopenModel.Crc
 import CanopenModel.Spec.BlockServer
 import CanopenModel.Generated.SdoBlock
+import CanopenModel.Sdo.Disturb
 namespace Canopen.Sdo.BlockDown
 open Canopen Canopen.Crc Canopen.Gen.SdoBlock
+open Canopen.Sdo (CErr Kind)
 open Canopen.Spec (BlockDown.Srv)
 
-/-- bus log entry: 0 = request delivered, 1 = request lost, 2 = response -/
+/-- bus log entry: 0 = request delivered, 1 = request lost, 2 = response,
+    5 = frame put into the client's queue (only logged when a disturbance is configured) -/
 structure Ev where
   kind : Nat
   frame : Bytes
@@ -59,12 +69,41 @@ structure Sys where
   queue : List Bytes := []
   nreq : Nat := 0
   log : List Ev := []        -- newest first
+  nresp : Nat := 0           -- C07: response frames the server has emitted so far
+  pending : List Bytes := [] -- C07: frames held back, delivered with the client's next frame
+  raised : Option CErr := none   -- exception class of the last `raise`
 deriving DecidableEq, Repr
 
-/-- environment: the server's block-size stream and the set of lost request numbers -/
+/-- environment: the server's block-size stream and the set of lost request numbers;
+    for C07 one disturbed response and whether the server's own time-out can fire -/
 structure Env where
   blkOf : Nat → Nat
   lost : Nat → Bool
+  dist : Option (Nat × Kind) := none
+  srvTimeout : Bool := true
+
+/-- what becomes of the frame hit by a disturbance: (delivered now, delivered later) -/
+def distort (k : Kind) (f : Bytes) : List Bytes × List Bytes :=
+  match k with
+  | .lost => ([], [])
+  | .replace g => ([g], [])
+  | .flipToggle => ([flipToggleFrame f], [])
+  | .setScs n => ([setScsFrame n f], [])
+  | .bumpMux => ([bumpMuxFrame f], [])
+  | .dup => ([f, f], [])
+  | .dupDeferred => ([f], [f])
+  | .late => ([], [f])
+  | .staleBetween g => ([g, f], [])
+
+/-- the responses `rs`, numbered from `n`, after the disturbance of response `at_` -/
+def distFrames (at_ : Nat) (k : Kind) : Nat → List Bytes → List Bytes × List Bytes
+  | _, [] => ([], [])
+  | n, r :: rs =>
+    ((if n = at_ then (distort k r).1 else [r]) ++ (distFrames at_ k (n + 1) rs).1,
+     (if n = at_ then (distort k r).2 else []) ++ (distFrames at_ k (n + 1) rs).2)
+
+/-- record an exception class -/
+def fail (s : Sys) (e : CErr) : Sys := { s with raised := some e }
 
 inductive Res | ok | err | fuel
 deriving DecidableEq, Repr
@@ -72,26 +111,42 @@ deriving DecidableEq, Repr
 /-- `SdoClient.send_request` on the simulated bus -/
 def sendReq (E : Env) (s : Sys) (f : Bytes) : Sys :=
   if E.lost s.nreq then { s with nreq := s.nreq + 1, log := ⟨1, f⟩ :: s.log }
-  else
-    { s with nreq := s.nreq + 1, srv := (Spec.BlockDown.step E.blkOf s.srv f).1,
-             queue := s.queue ++ (Spec.BlockDown.step E.blkOf s.srv f).2,
-             log := ((Spec.BlockDown.step E.blkOf s.srv f).2.map (Ev.mk 2)).reverse ++ ⟨0, f⟩ :: s.log }
+  else match E.dist with
+    | none =>
+      { s with nreq := s.nreq + 1, srv := (Spec.BlockDown.step E.blkOf s.srv f).1,
+               queue := s.queue ++ (Spec.BlockDown.step E.blkOf s.srv f).2,
+               log := ((Spec.BlockDown.step E.blkOf s.srv f).2.map (Ev.mk 2)).reverse ++ ⟨0, f⟩ :: s.log }
+    | some d =>
+      { s with nreq := s.nreq + 1, srv := (Spec.BlockDown.step E.blkOf s.srv f).1,
+               nresp := s.nresp + (Spec.BlockDown.step E.blkOf s.srv f).2.length,
+               queue := s.queue ++ s.pending ++ (distFrames d.1 d.2 s.nresp (Spec.BlockDown.step E.blkOf s.srv f).2).1,
+               pending := (distFrames d.1 d.2 s.nresp (Spec.BlockDown.step E.blkOf s.srv f).2).2,
+               log := ((s.pending ++ (distFrames d.1 d.2 s.nresp (Spec.BlockDown.step E.blkOf s.srv f).2).1).map
+                        (Ev.mk 5)).reverse ++ ⟨0, f⟩ :: s.log }
 
 /-- outcome of `read_response` -/
-inductive RR | resp (f : Bytes) | timeout | aborted
+inductive RR | resp (f : Bytes) | timeout | aborted (code : Nat)
 deriving DecidableEq, Repr
 
-def classify (r : Bytes) : RR := if r.getD 0 0 = RESPONSE_ABORTED then .aborted else .resp r
+def classify (r : Bytes) : RR :=
+  if r.getD 0 0 = RESPONSE_ABORTED then .aborted (leVal ((r.drop 4).take 4)) else .resp r
 
 /-- `SdoClient.read_response` (the peer's own time-out fires before the client's) -/
 def readResponse (E : Env) (s : Sys) : Sys × RR :=
   match s.queue with
   | r :: q => ({ s with queue := q }, classify r)
   | [] =>
-    match (Spec.BlockDown.timeout E.blkOf s.srv).2 with
-    | r :: q => ({ s with srv := (Spec.BlockDown.timeout E.blkOf s.srv).1, queue := q,
-                          log := ((r :: q).map (Ev.mk 2)).reverse ++ s.log }, classify r)
-    | [] => ({ s with srv := (Spec.BlockDown.timeout E.blkOf s.srv).1 }, .timeout)
+    if E.srvTimeout then
+      match (Spec.BlockDown.timeout E.blkOf s.srv).2 with
+      | r :: q => ({ s with srv := (Spec.BlockDown.timeout E.blkOf s.srv).1, queue := q,
+                            log := ((r :: q).map (Ev.mk 2)).reverse ++ s.log }, classify r)
+      | [] => ({ s with srv := (Spec.BlockDown.timeout E.blkOf s.srv).1 }, .timeout)
+    else (s, .timeout)
+
+/-- the exception `read_response` raises for a non-response -/
+def rrErr : RR → CErr
+  | .aborted code => .aborted code
+  | _ => .comm
 
 /-- `SdoClient.abort(code)` -/
 def abort (E : Env) (s : Sys) (code : Nat) : Sys :=
@@ -102,7 +157,8 @@ def rrLoop (E : Env) : Nat → Sys → Bytes → Sys × RR
   | 0, s, _ => (s, .timeout)
   | k+1, s, req =>
     match readResponse E (sendReq E s req) with
-    | (s1, .timeout) => if k = 0 then (abort E s1 0x05040000, .timeout) else rrLoop E k s1 req
+    | (s1, .timeout) => if k = 0 then (fail (abort E s1 0x05040000) .comm, .timeout) else rrLoop E k s1 req
+    | (s1, .aborted code) => (fail s1 (.aborted code), .aborted code)
     | r => r
 
 /-- `SdoClient.request_response` -/
@@ -116,8 +172,8 @@ def init (E : Env) (s : Sys) (idx sub : Nat) (size : Option Nat) (crcReq : Bool)
   let req := [command, idx % 256, idx / 256, sub] ++ leBytes 4 (size.getD 0)
   match requestResponse E { s with cl := { size := size } } req with
   | (s1, .resp r) =>
-    if r.getD 0 0 &&& 0xE0 ≠ RESPONSE_BLOCK_DOWNLOAD then (abort E s1 0x05040001, false)
-    else if r.getD 1 0 + 256 * r.getD 2 0 ≠ idx ∨ r.getD 3 0 ≠ sub then (abort E s1 0x08000000, false)
+    if r.getD 0 0 &&& 0xE0 ≠ RESPONSE_BLOCK_DOWNLOAD then (fail (abort E s1 0x05040001) .comm, false)
+    else if r.getD 1 0 + 256 * r.getD 2 0 ≠ idx ∨ r.getD 3 0 ≠ sub then (fail (abort E s1 0x08000000) .comm, false)
     else ({ s1 with cl := { s1.cl with blksize := r.getD 4 0,
                                         crcSupported := decide (r.getD 0 0 &&& CRC_SUPPORTED ≠ 0) } }, true)
   | (s1, _) => (s1, false)
@@ -134,8 +190,8 @@ deriving DecidableEq, Repr
 
 /-- `_block_ack` after the response has been read -/
 def ackResponse (E : Env) (s : Sys) (r : Bytes) : Sys × WRes :=
-  if r.getD 0 0 &&& 0xE0 ≠ RESPONSE_BLOCK_DOWNLOAD then (abort E s 0x05040001, .err)
-  else if r.getD 0 0 &&& 0x3 ≠ BLOCK_TRANSFER_RESPONSE then (abort E s 0x05040001, .err)
+  if r.getD 0 0 &&& 0xE0 ≠ RESPONSE_BLOCK_DOWNLOAD then (fail (abort E s 0x05040001) .comm, .err)
+  else if r.getD 0 0 &&& 0x3 ≠ BLOCK_TRANSFER_RESPONSE then (fail (abort E s 0x05040001) .comm, .err)
   else if r.getD 1 0 ≠ s.cl.blksize then
     -- `_retransmit(ackseq, blksize)`
     ({ s with cl := { s.cl with pos := s.cl.pos - (s.cl.currentBlock.drop (r.getD 1 0)).length * 7,
@@ -144,11 +200,13 @@ def ackResponse (E : Env) (s : Sys) (r : Bytes) : Sys × WRes :=
      .cont (((s.cl.currentBlock.drop (r.getD 1 0)).map fun b => Item.write b true) ++ [Item.endRetx]))
   else ({ s with cl := { s.cl with currentBlock := [], blksize := r.getD 2 0, seqno := 0 } }, .cont [])
 
-/-- `_block_ack` -/
+/-- `_block_ack`: a time-out while waiting for the acknowledge sends the abort frame 0x05040000
+    before the exception goes on (repaired code) -/
 def blockAck (E : Env) (s : Sys) : Sys × WRes :=
   match readResponse E s with
   | (s1, .resp r) => ackResponse E s1 r
-  | (s1, _) => (s1, .err)
+  | (s1, .timeout) => (fail (abort E s1 0x05040000) .comm, .err)
+  | (s1, .aborted code) => (fail s1 (.aborted code), .err)
 
 /-- the client attributes after `send(b, end)` has emitted its frame -/
 def afterSend (c : Cl) (b : Bytes) (last : Bool) : Cl :=
@@ -171,11 +229,11 @@ def send (E : Env) (s : Sys) (b : Bytes) (last : Bool) : Sys × WRes :=
 
 /-- `write(b)`; `retx` says who called (only the treatment of a `None` return differs) -/
 def writeStep (E : Env) (s : Sys) (b : Bytes) (retx : Bool) : Sys × WRes :=
-  if s.cl.done then (s, .err)
+  if s.cl.done then (fail s .runtime, .err)
   else
     let data := b.take 7
     if s.cl.size.isSome ∧ s.cl.pos + data.length ≥ s.cl.size.getD 0 then send E s data true
-    else if data.length < 7 then (s, if retx then .cont [] else .err)
+    else if data.length < 7 then (if retx then s else fail s .other, if retx then .cont [] else .err)
     else send E s data false
 
 /-- the write phase: all pending `write` calls, innermost first -/
@@ -193,7 +251,8 @@ def close (E : Env) (s : Sys) : Sys × Res :=
   let command := REQUEST_BLOCK_DOWNLOAD ||| END_BLOCK_TRANSFER ||| ((7 - s.cl.lastBytesSent) <<< 2)
   let req := command :: (if s.cl.crcSupported then leBytes 2 s.cl.crc else [0, 0]) ++ [0, 0, 0, 0, 0]
   match requestResponse E s req with
-  | (s1, .resp r) => (s1, if r.getD 0 0 &&& END_BLOCK_TRANSFER = 0 then .err else .ok)
+  | (s1, .resp r) =>
+    if r.getD 0 0 &&& END_BLOCK_TRANSFER = 0 then (fail s1 .comm, .err) else (s1, .ok)
   | (s1, _) => (s1, .err)
 
 /-- the 7-byte chunks a conforming caller makes `write` see -/
@@ -206,15 +265,32 @@ def chunks (bs : Bytes) : List Bytes := chunks7 bs.length bs
 def sys0 (crcCapable : Bool) : Sys := { cl := {}, srv := { crcCapable := crcCapable } }
 
 /-- `with client.open(idx, sub, "wb", size=size, block_transfer=True, request_crc_support=crcReq)
-    as fp: <caller writes payload>` -/
-def blockDownload (E : Env) (fuel : Nat) (crcCapable : Bool) (idx sub : Nat) (payload : Bytes)
+    as fp: <caller writes payload>`, on a client/server pair in state `s0`.  When the write phase
+    raised, `close()` still runs on leaving the `with` block and its own exception (if any)
+    replaces the first one. -/
+def blockDownloadFrom (E : Env) (fuel : Nat) (s0 : Sys) (idx sub : Nat) (payload : Bytes)
     (size : Option Nat) (crcReq : Bool) : Sys × Res :=
-  match init E (sys0 crcCapable) idx sub size crcReq with
+  match init E s0 idx sub size crcReq with
   | (s, false) => (s, .err)
   | (s, true) =>
     match run E fuel s ((chunks payload).map fun b => Item.write b false) with
     | (s1, .ok) => close E s1
     | (s1, r) => ((close E s1).1, r)
+
+def blockDownload (E : Env) (fuel : Nat) (crcCapable : Bool) (idx sub : Nat) (payload : Bytes)
+    (size : Option Nat) (crcReq : Bool) : Sys × Res :=
+  blockDownloadFrom E fuel (sys0 crcCapable) idx sub payload size crcReq
+
+/-- C07: time passes between two transfers — what was held back arrives, and a transfer the
+    server still has open runs into the server's own time-out (abort 0x05040000 to the client) -/
+def between (s : Sys) : Sys :=
+  { s with
+    queue := s.queue ++ s.pending ++
+      (if s.srv.phase = .idle then [] else [Spec.abortFrame s.srv.idx s.srv.sub 0x05040000]),
+    pending := [],
+    srv := { s.srv with phase := .idle },
+    log := ((s.pending ++ (if s.srv.phase = .idle then [] else [Spec.abortFrame s.srv.idx s.srv.sub 0x05040000])).map
+              (Ev.mk 5)).reverse ++ s.log }
 
 /-- fuel that always suffices for `nLost` lost frames (see `CanopenProofs/C12.lean`) -/
 def fuelFor (payload : Bytes) (nLost : Nat) : Nat := 2 * (payload.length / 7 + 2) + 260 * (nLost + 1)
